@@ -91,7 +91,7 @@ pub fn dump_tile(t: &VectorTile, sort_layers: bool) -> String { let mut ls: Vec<
 // ---------------- generators ----------------
 fn gen_val(rng: &mut Rng) -> GVal {
 	match rng.below(9) {
-		0 => GVal::Str(rng.pick(&["", "a", "primary", "zoo street", "ünï✓", "7"]).to_string()), 1 => GVal::F32(rng.next() as u32 & 0x7f7f_ffff), 2 => GVal::F64(rng.next() & 0x7fef_ffff_ffff_ffff),
+		0 => GVal::Str(rng.pick(&["", "a", "primary", "zoo street", "ünï✓", "7"]).to_string()), 1 => GVal::F32(if rng.chance(1, 3) { *rng.pick(&[0u32, 1 << 31, 0x7fc0_0000, 0xffc0_0001, 0x7f80_0000, 0xff80_0000, 0x3f80_0000, 0xbf80_0000]) } else { rng.next() as u32 }), 2 => GVal::F64(if rng.chance(1, 3) { *rng.pick(&[0u64, 1 << 63, 0x7ff8_0000_0000_0000, 0xfff8_0000_0000_0001, 0x7ff0_0000_0000_0000, 0xfff0_0000_0000_0000, 0x3ff0_0000_0000_0000, 0xbff0_0000_0000_0000]) } else { rng.next() }),
 		3 => GVal::Int64(*rng.pick(&[0i64, 1, -1, 300, -300, i64::MAX, i64::MIN])), 4 => GVal::SInt(*rng.pick(&[0i64, 1, -1, 5000, -5000, (1 << 62) - 1, -(1 << 62), 1 << 62, i64::MAX, i64::MIN])),
 		5 => GVal::UInt(*rng.pick(&[0u64, 1, 7, 127, 128, 16384, u32::MAX as u64 + 1, u64::MAX])), 6 => GVal::Bool(rng.chance(1, 2)), 7 => GVal::UInt(rng.below(20)), _ => GVal::Str(format!("v{}", rng.below(6))),
 	}
@@ -107,7 +107,7 @@ pub fn gen_layer(rng: &mut Rng, name: &str, id_key: Option<&str>) -> GLayer {
 		let mut tags = Vec::new();
 		if !keys.is_empty() && !vals.is_empty() { for _ in 0..rng.below(4) { tags.push(rng.below(keys.len() as u64) as u32); tags.push(rng.below(vals.len() as u64) as u32); } }
 		if let Some(k) = id_key { if rng.chance(4, 5) { tags.push(keys.iter().position(|x| x == k).unwrap() as u32); tags.push((vals.len() - 1 - rng.below(4) as usize) as u32); } }
-		GFeat { id: match rng.below(4) { 0 => None, 1 => Some(u64::MAX), 2 => Some(rng.below(1000)), _ => Some(rng.next()) }, tags, gtype: *rng.pick(&[0u64, 1, 2, 3, 3, 1]),
+		GFeat { id: match rng.below(6) { 0 => None, 1 => Some(u64::MAX), 2 => Some(rng.below(1000)), 3 => Some(0), 4 => Some(*rng.pick(&[1u64, 127, 128, 1 << 32, (1 << 63) - 1, 1 << 63])), _ => Some(rng.next()) }, tags, gtype: *rng.pick(&[0u64, 1, 2, 3, 3, 1]),
 			geom: { let n = *rng.pick(&[0usize, 3, 7, 20]); rng.bytes(n) } }
 	}).collect();
 	GLayer { name: name.to_string(), extent: *rng.pick(&[4096u32, 4096, 512, 8192, 1]), version: *rng.pick(&[1u32, 2, 2]), keys, vals, feats, tables_first: rng.chance(1, 2) }
@@ -194,7 +194,7 @@ pub fn run(ctx: &Ctx, focus: &str) -> Result<()> {
 				if stored.is_empty() { stored.push(((4, 0, 0), compress(Blob::from(enc_tile(&vec![])), &c).unwrap().into_vec())); }
 				// some sources answer at once, others suspend a few times first (real readers do I/O): the result may not depend on it
 				let yields = *rng.pick(&[0usize, 0, 1, 2, 5]);
-				register(&name, Box::new(MemSource::new(&name, stored, TileFormat::PBF, c).with_yields(yields)));
+				crate::memsrc::register_slow_open(&name, Box::new(MemSource::new(&name, stored, TileFormat::PBF, c).with_yields(yields)), [2usize, 0, 1][j % 3]);
 				names.push(name);
 			}
 			let vpl = format!("from_vectortiles_merged [ {} ]", names.iter().map(|n| format!("from_container filename={n}")).collect::<Vec<_>>().join(", "));
@@ -290,6 +290,54 @@ pub fn run(ctx: &Ctx, focus: &str) -> Result<()> {
 				other => col.violation("update-fail", &desc, "", &format!("{:?}", other.map(|r| r.map(|o| o.map(|b| b.len())).map_err(|e| format!("{e:#}"))))),
 			}
 			let _ = std::fs::remove_file(&csv_path);
+		}
+	}
+	// (4) special floating point values (signed zeros, NaNs with payloads, infinities, negatives): the value tables are
+	// rebuilt through hash maps with a fresh random state per call, so each operation is repeated many times
+	{
+		let specials64: Vec<u64> = vec![0, 1 << 63, 0x7ff8_0000_0000_0000, 0xfff8_0000_0000_0001, 0x7ff0_0000_0000_0000, 0xfff0_0000_0000_0000, (-1.5f64).to_bits(), 1.5f64.to_bits(), 1, (1 << 63) | 1];
+		let specials32: Vec<u32> = vec![0, 1 << 31, 0x7fc0_0000, 0xffc0_0001, 0x7f80_0000, 0xff80_0000, (-2.5f32).to_bits(), 2.5f32.to_bits()];
+		let mk = |vals: Vec<GVal>, first_id: u64| -> GTile { let n = vals.len() as u32; vec![GLayer { name: "water".into(), extent: 4096, version: 2, keys: vec!["v".into(), "tid".into()], vals: { let mut v = vals; v.push(GVal::UInt(99)); v }, feats: (0..n).map(|k| GFeat { id: Some(first_id + k as u64), tags: vec![0, k, 1, n], gtype: 1, geom: vec![9, 2, 2] }).collect(), tables_first: k_even(first_id) }] };
+		fn k_even(k: u64) -> bool { k % 2 == 0 }
+		let a = mk(vec![GVal::F64(specials64[0]), GVal::F32(specials32[0]), GVal::F64(specials64[7])], 10);
+		let b = mk(specials64.iter().map(|x| GVal::F64(*x)).chain(specials32.iter().map(|x| GVal::F32(*x))).collect(), 100);
+		let reps = if ctx.thorough { 6000 } else { 1500 };
+		// merge: features of a then b in one layer, every value with its own bits
+		let (na, nb) = (format!("sa_{}", ctx.seed), format!("sb_{}", ctx.seed));
+		let exp_merge = { let fa = dump_expected(&a, false); let fb_ = dump_expected(&b, false); format!("{};{}", fa.trim_end_matches(']'), fb_.split_once('[').unwrap().1) };
+		let dir = std::fs::canonicalize(&ctx.out)?;
+		for _round in 0..reps / 500 {
+			register(&na, Box::new(MemSource::new(&na, vec![((3, 1, 2), enc_tile(&a))], TileFormat::PBF, TileCompression::Uncompressed)));
+			register(&nb, Box::new(MemSource::new(&nb, vec![((3, 1, 2), enc_tile(&b))], TileFormat::PBF, TileCompression::Uncompressed)));
+			let vpl = format!("from_vectortiles_merged [ from_container filename={na}, from_container filename={nb} ]");
+			let desc = format!("mvt.merge {};{}", hx(&enc_tile(&a)), hx(&enc_tile(&b)));
+			let op = match guarded(|| rt.block_on(factory().operation_from_vpl(&vpl))) { Ok(Ok(o)) => o, _ => { col.violation("merge-build", &desc, &desc, "special floats"); break; } };
+			let mut bad = None;
+			for _ in 0..500 {
+				col.spec_cases += 1;
+				match guarded(|| rt.block_on(op.get_tile_data(&TileCoord3 { x: 1, y: 2, z: 3 }))) {
+					Ok(Ok(Some(bl))) => match impl_decode(bl.as_slice()) { Ok(d) => { let got = dump_tile(&d, true); if got != exp_merge { bad = Some(format!("expected {exp_merge} got {got}")); break; } } Err(e) => { bad = Some(e); break; } },
+					other => { bad = Some(format!("{:?}", other.map(|r| r.map(|o| o.map(|b| b.len())).map_err(|e| format!("{e:#}"))))); break; }
+				}
+			}
+			if let Some(d) = bad { col.violation("merge-special-floats", &desc, &desc, &d); break; }
+		}
+		col.bump("special_float_merges", reps as u64);
+		// update_properties with a data table that matches nothing: the layer's tables are rebuilt, content must stay
+		let csv_path = dir.join("special.csv"); std::fs::write(&csv_path, "id,extra\n1,x\n")?;
+		let nu = format!("su_{}", ctx.seed);
+		register(&nu, Box::new(MemSource::new(&nu, vec![((3, 1, 2), enc_tile(&b))], TileFormat::PBF, TileCompression::Uncompressed)));
+		let vpl = format!("from_container filename={nu} | vectortiles_update_properties data_source_path=\"{}\" layer_name=\"water\" id_field_tiles=tid id_field_data=id", csv_path.to_str().unwrap());
+		let desc = format!("update tile={} layer=water (no matching rows)", hx(&enc_tile(&b)));
+		let exp_b = dump_expected(&b, false);
+		match guarded(|| rt.block_on(factory().operation_from_vpl(&vpl))) {
+			Ok(Ok(op)) => { for _ in 0..reps {
+				col.spec_cases += 1;
+				let r = guarded(|| rt.block_on(op.get_tile_data(&TileCoord3 { x: 1, y: 2, z: 3 })));
+				let got = match &r { Ok(Ok(Some(bl))) => impl_decode(bl.as_slice()).map(|d| dump_tile(&d, false)).unwrap_or_else(|e| e), _ => "lookup failed".to_string() };
+				if got != exp_b { col.violation("update-special-floats", &desc, "", &format!("expected {exp_b} got {got}")); break; }
+			} }
+			_ => col.violation("update-build", &desc, "", "special floats"),
 		}
 	}
 	col.finish()
